@@ -228,9 +228,12 @@ Section SendMonitor.
     match evs, bs with
     | e :: evs', b :: bs' =>
       let is_last := match bs' with [] => true | _ => false end in
-      match emissions (S (length b)) b with
-      | None => mk_sverdict true true true false
-      | Some ems =>
+      let '(ems, grouped) := match emissions (S (length b)) b with
+                             | Some ems => (ems, true)
+                             | None => (map (fun x => fst (fst x)) b, false)   (* copies do not group: judge each datagram *)
+                             end in
+      vand (mk_sverdict true true true grouped)
+      (
         if m_handshake m then
           (* reply to the OACK: ERROR or a failed receive or a non-zero ACK ends the transfer without DATA *)
           let stop := match m_raw e with
@@ -273,7 +276,7 @@ Section SendMonitor.
             let m0 := mk_smon (m_hi m) (m_acked m) (if sent then 0 else elapsed) fails (m_client m) false in
             let '(m1, v1) := check_burst m0 (m_acked m + 1) ems in
             vand (vand v1 (mk_sverdict true c07 c08 true)) (smon_run m1 evs' bs' ending)
-      end
+      )
     | [], [] => vtrue
     | [], _ :: _ => mk_sverdict true false true true   (* more receives than the padded script has events *)
     | _ :: _, [] => vtrue
@@ -287,17 +290,18 @@ Section SendMonitor.
       match ending with
       | EndRunaway => mk_sverdict true false true true
       | _ =>
-        match emissions (S (length b0)) b0 with
-        | None => mk_sverdict true true true false
-        | Some ems0 =>
-          let m := mk_smon 0 0 0 0 1 check in
-          if check then
-            vand (mk_sverdict true (negb (has_data ems0)) true true)
-                 (smon_run m (pad_events evs tmo (length bs)) bs ending)
-          else
-            let '(m1, v1) := check_burst m 1 ems0 in
-            vand v1 (smon_run m1 (pad_events evs tmo (length bs)) bs ending)
-        end
+        let '(ems0, grouped) := match emissions (S (length b0)) b0 with
+                                | Some e => (e, true)
+                                | None => (map (fun x => fst (fst x)) b0, false)
+                                end in
+        let m := mk_smon 0 0 0 0 1 check in
+        vand (mk_sverdict true true true grouped)
+          (if check then
+             vand (mk_sverdict true (negb (has_data ems0)) true true)
+                  (smon_run m (pad_events evs tmo (length bs)) bs ending)
+           else
+             let '(m1, v1) := check_burst m 1 ems0 in
+             vand v1 (smon_run m1 (pad_events evs tmo (length bs)) bs ending))
       end
     end.
 End SendMonitor.
